@@ -60,6 +60,12 @@ def declare(E):
                raises={"OSError": "True"})
     E.contract("PyFile.flush", argnames=["self"], returns="none", raises={"OSError": "True"})
     E.contract("paramiko.sftp_server.SFTPServer.convert_errno", argnames=["e"], returns="int", ensures=["result >= 1"])
+    # a new handle knows nothing about where its file object stands (a file opened for appending starts at its end): the
+    # invariant can only be established by knowing nothing
+    E.contract(H + "__init__", params={"flags": "nat"},
+               ensures={"a_new_handle_assumes_no_position": TELL,
+                        "the_open_flags_are_kept": "self._SFTPHandle__flags == flags"},
+               returns="none", raises={})
     E.contract(H + "read", params={"offset": "nat", "length": "nat"},
                requires={"the_handles_idea_of_the_position_is_the_real_one": TELL},
                ensures={"the_files_bytes_at_the_requested_offset":
